@@ -27,7 +27,9 @@ func init() {
 func runC11(r *Report) {
 	c11R1(r)
 	c11R2(r)
+	c11R2b(r)
 	c11R3(r)
+	c11R3b(r)
 	c11R4(r)
 	c11R5(r)
 	c11R5b(r)
@@ -698,4 +700,114 @@ func c11R5b(r *Report) {
 			"after computePex has taken a delta out of the pending lists a path returns without sending it or putting it back ("+strings.Join(miss, "; ")+"): a departure that was pending at that moment is never reported, and an arrival is recorded as told although the remote never heard of it (its later departure is then a drop for an unknown peer)")
 	}
 	r.Sentinel("R5.computePex", n, 1)
+}
+
+// R2 (continued): the membership bitmap of a peer's request lists covers the queue AND the requests in flight. It is
+// emptied only together with both lists (or where both are known to be empty): releasing it when only the pipeline
+// has drained forgets the queued blocks, and the next command for one of them is accepted again — two identical
+// Requests go out.
+func c11R2b(r *Report) {
+	p := r.P
+	bm := p.Field("peer/requests", "Requests", "bitmap")
+	q := p.Field("peer/requests", "Requests", "queue")
+	rq := p.Field("peer/requests", "Requests", "requested")
+	if !r.Anchor("R2", "requests.Requests.bitmap/queue/requested", bm != nil && q != nil && rq != nil) {
+		return
+	}
+	n := 0
+	for _, f := range p.SrcFuncs() {
+		if relPkg(f) != "peer/requests" {
+			continue
+		}
+		allInstrs(f, func(in ssa.Instruction) {
+			st, ok := isStoreToField(in, bm)
+			if !ok || !isNilConst(st.Val) {
+				return
+			}
+			if al, isAl := st.Addr.(*ssa.FieldAddr).X.(*ssa.Alloc); isAl && al.Comment == "complit" {
+				return
+			}
+			n++
+			r.Fn(f)
+			okAll := true
+			missing := ""
+			for _, L := range []*types.Var{q, rq} {
+				okL := false
+				allInstrs(f, func(i2 ssa.Instruction) {
+					if s2, ok2 := isStoreToField(i2, L); ok2 && isNilConst(s2.Val) && (instrDominates(s2, st) || instrDominates(st, s2)) {
+						okL = true
+					}
+				})
+				if !okL {
+					okL = p.guardedIP(st, func(g Guard) bool {
+						op, x, y, okc := cmpFact(g)
+						if !okc {
+							return false
+						}
+						z, okz := constInt(y)
+						if !okz || z != 0 || !(op == token.EQL || op == token.LEQ) {
+							return false
+						}
+						c, isC := stripIntConv(x).(*ssa.Call)
+						if !isC {
+							return false
+						}
+						bi, isB := c.Call.Value.(*ssa.Builtin)
+						if !isB || bi.Name() != "len" {
+							return false
+						}
+						fv, _ := loadedField(c.Call.Args[0])
+						return fv == L
+					}, 0)
+				}
+				if !okL {
+					okAll = false
+					missing = L.Name()
+				}
+			}
+			r.Check(okAll, "R2", fname(f)+"/bitmap-reset-only-with-both-lists", st.Pos(), "the membership bitmap is emptied only together with the queue and the requests in flight",
+				"Requests.bitmap is reset although Requests."+missing+" is neither emptied with it nor known to be empty: the blocks still in that list lose their membership bit, a later command for one of them is accepted again, and the same Request is sent twice while the first is outstanding")
+		})
+	}
+	r.Sentinel("R2.bitmap-reset", n, 1)
+}
+
+// R3 (continued): the bitmap we advertise comes from (*Pieces).Bitmap, and peer.Run only ever pads it. It must be built
+// with exactly ceil(pieces/8) bytes: bit by bit below the piece count. Bitmap.Extend and Bitmap.SetMultiple take what
+// they are given as an index that must be addressable — handed a count that is a multiple of 8 they add a byte.
+func c11R3b(r *Report) {
+	p := r.P
+	bf := p.Func("tor/piece", "Pieces.Bitmap")
+	if !r.Anchor("R3", "piece.(*Pieces).Bitmap", bf != nil) {
+		return
+	}
+	r.Fn(bf)
+	n := 0
+	for _, f := range p.SrcFuncs() {
+		if relPkg(f) != "tor/piece" || !(f == bf || p.inUnitOf(f, bf)) {
+			continue
+		}
+		allInstrs(f, func(in ssa.Instruction) {
+			c, ok := in.(*ssa.Call)
+			if !ok {
+				return
+			}
+			cal := c.Call.StaticCallee()
+			if cal == nil || relPkg(cal) != "bitmap" {
+				return
+			}
+			switch cal.Name() {
+			case "Extend", "SetMultiple":
+				n++
+				// an argument of the form count-1 is an index
+				arg := c.Call.Args[len(c.Call.Args)-1]
+				_, k := splitAddConst(stripIntConv(arg))
+				r.Check(k < 0, "R3", fname(f)+"/"+cal.Name()+"("+exprStr(arg)+")-takes-an-index", c.Pos(), "the advertised bitmap is extended by an index",
+					"(*Pieces).Bitmap — the source of the Bitfield we send — calls bitmap."+cal.Name()+" with a count: for a piece count that is a multiple of 8 the bitmap gets one byte more than ceil(pieces/8), and peer.Run sends it as it is to every peer that does not do Fast")
+			}
+		})
+	}
+	if n == 0 {
+		r.Ok("R3", "Pieces.Bitmap/no-count-based-extension", bf.Pos(), "the advertised bitmap is built without Extend/SetMultiple")
+	}
 }
